@@ -129,8 +129,9 @@ type G struct {
 	sk     *capacity.SpaceKeeper
 	free   map[string]uint64
 	payout string
-	kdirs  []int // the keeper's dbDirs
-	known  []int // every directory a keeper of this sequence has been given (a restart is configured with all of them)
+	mined  map[int]bool // ordinals switched to mining by this keeper (a new keeper derives states afresh)
+	kdirs  []int        // the keeper's dbDirs
+	known  []int        // every directory a keeper of this sequence has been given (a restart is configured with all of them)
 	// last successful request, for the restart oracle
 	lastOp  string
 	lastSel string
@@ -350,6 +351,7 @@ func (g *G) opFree(dir int, v uint64) {
 
 func (g *G) opKeeper(ds []int) {
 	g.sk = nil
+	g.mined = map[int]bool{}
 	runtime.GC()
 	cfg := config.DefaultConfig()
 	cfg.Miner.PrivatePassword = "" // no configuration at start-up
